@@ -20,6 +20,9 @@ func plans() []nrun.Plan {
 	out = append(out, cscen.Plans()...)
 	// generated producer family (5 configurations x scripts x disruptors x gates), default schedule
 	out = append(out, pscen.GenPlans()...)
+	// generated consumer hook family (hook speed x placement x polling scripts x seek/remove/purge/second poller/Close
+	// disruptors started after a poll or while its hook dispatch is running), default schedule
+	out = append(out, cscen.HookGenPlans()...)
 	return out
 }
 
@@ -31,7 +34,7 @@ func TestC14(t *testing.T) {
 	nrun.Main(t, &nrun.Check{
 		ID: "C14", TestName: "TestC14", Plans: plans(), Keep: keep,
 		QuickTime: 85 * time.Second, ThorTime: 18 * time.Minute,
-		Rule: "engine N, riding on the C01 producer scenarios (Flush / AbortBufferedRecords / PurgeTopicsFromClient / context cancel / Close as disruptors, produce faults) and the C04 direct-consumer scenarios (small polls, pause/resume, leader moves that discard buffered fetches, fetch faults, Close): every order of application calls, frame deliveries, ticks and faults within k deviations; in each execution every record seen by OnProduceRecordBuffered must be seen exactly once by OnProduceRecordUnbuffered with the error its promise got, every record seen by OnFetchRecordBuffered exactly once by OnFetchRecordUnbuffered (polled or discarded), and BufferedFetchRecords/Bytes must be zero when nothing is buffered; distinct = distinct terminal outcomes per scenario",
+		Rule:   "engine N, riding on the C01 producer scenarios (Flush / AbortBufferedRecords / PurgeTopicsFromClient / context cancel / Close as disruptors, produce faults) and the C04 direct-consumer scenarios (small polls, pause/resume, leader moves that discard buffered fetches, fetch faults, Close): every order of application calls, frame deliveries, ticks and faults within k deviations; in each execution every record seen by OnProduceRecordBuffered must be seen exactly once by OnProduceRecordUnbuffered with the error its promise got, every record seen by OnFetchRecordBuffered exactly once by OnFetchRecordUnbuffered (polled or discarded), and BufferedFetchRecords/Bytes must be zero when nothing is buffered; distinct = distinct terminal outcomes per scenario",
 		Assume: []string{"same executions and assumptions as C01 and C04", "the group-rebalance discard path is exercised by the C04 leader-move scenarios (assignment invalidation), not by a group scenario"},
 	})
 }
